@@ -99,6 +99,18 @@ CLAIMED["C10"] = dict(
     text="Model-based seeded search over delta sequences (valid, invalid at one drawn position, look-alike and nested handles, case variants) with full comparison of every publisher's list reply and details after every request, plus the served RRDP files checked by the simulated client population.",
     design_ref="DESIGN.md §5 C10",
 )
+CLAIMED["C12"] = dict(
+    category="fault_enumeration",
+    technique="deterministic simulation of the transport between remote children/publishers (played by the harness with its own identity keys) and the real rfc6492 / rfc8181 entry points: substitution of signing keys and senders, identity replacement, single-bit corruption",
+    text="The key x sender x recipient matrix, the identity-replacement cases and the publication isolation cases are enumerated completely in every run; bit corruption is sampled (320 positions per run, jittered by the seed). State digests before/after every refused request, replies validated under the server's identity certificate.",
+    design_ref="DESIGN.md §5 C12",
+)
+CLAIMED["C16"] = dict(
+    category="exploration",
+    technique="deterministic simulation with a hostile client: structured and seeded mutations of CMS messages (raw and validly re-signed), XML and API JSON bodies against the protocol entry points and manager calls under catch_unwind",
+    text="Seeded search over malformed inputs at the entry points the simulator can reach (rfc6492, rfc8181, serde decoding of API request types followed by the manager call). The HTTP routing layer itself (path segments, headers) is outside the simulator; that part of the quantifier is not covered (see DESIGN.md).",
+    design_ref="DESIGN.md §5 C16",
+)
 PENDING = {}
 
 def main():
